@@ -94,6 +94,7 @@ def check_rows(ck):
                 resolved = o[4][4] if len(o) > 4 and o[4] and len(o[4]) > 4 and o[4][4] else (o[4][3] if len(o) > 4 and o[4] and len(o[4]) > 3 and o[4][3] else o[1])
                 if {o[1], resolved, resolved + "::from", resolved + "::into"} & back_fns:
                     back_fns.add(fn["path"])
+    parts_helpers = {}
     for fn in fns:
         body = mir.Body(fn)
         live = body.live_blocks()
@@ -110,6 +111,12 @@ def check_rows(ck):
                 ops = {n: body.origin_operand(o) for n, o in zip(names, s["r"]["ops"])}
                 d, l = ptr_src(ops["data"]), len_src(ops["len"])
                 ok = d is not None and l is not None and d[0] == l[0] and d[1] == l[1] and d[1][0] == "arg"
+                bd, bl = base_of(ops["data"]), base_of(ops["len"])
+                if not ok and bd[0] == "arg" and bl[0] == "arg" and bd[1] != bl[1] and not has_switch(body):
+                    # a "from raw parts" helper: stores its own pointer and length arguments untouched, so the pairing is decided
+                    # at each of its call sites instead (P-parts-helper-call below)
+                    parts_helpers[fn["path"]] = (bd[1], bl[1])
+                    ok = True
                 ck.ob("S-ctor-ptr-len", key, ok,
                       "%s (%s) builds a %s whose data/len do not come from the pointer and length of one and the same argument: data=%s len=%s"
                       % (fn["path"], fn["span"], s["r"]["adt"].split("::")[-1], mir.fmt(ops["data"]), mir.fmt(ops["len"])),
@@ -309,6 +316,27 @@ def check_rows(ck):
             ck.ob("H-helper-preserves-variant-and-payload", "%s/%s" % (key, var), okk,
                   "%s on `%s`: %s" % (key, var, o), sample={"fn": key, "case": var})
     ck.floor("COption/CResult helper methods", n_help, 8)
+    # ---- call sites of "from raw parts" helpers: the pointer and the length handed over belong to one argument / one view --------
+    for fn in fns:
+        if not parts_helpers:
+            break
+        body = mir.Body(fn)
+        for bi, t in body.calls():
+            names = {mir.callee_path(t), mir.callee_res(t)}
+            hit = [h for h in parts_helpers if h in names]
+            if not hit:
+                continue
+            pi, li = parts_helpers[hit[0]]
+            a0 = body.origin_operand(t["args"][pi - 1])
+            a1 = body.origin_operand(t["args"][li - 1])
+            d, l = ptr_src(a0), len_src(a1)
+            ok = d is not None and l is not None and d[0] == l[0] and d[1] == l[1] and d[1][0] == "arg"
+            n_ctor += 1
+            ck.ob("S-ctor-ptr-len", "%s/via-%s" % (fn["path"], hit[0].split("::")[-1]), ok,
+                  "%s (%s) calls the parts helper %s with (%s, %s): not the pointer and length of one and the same argument"
+                  % (fn["path"], fn["span"], hit[0], mir.fmt(a0), mir.fmt(a1)),
+                  sample={"fn": fn["path"], "helper": hit[0], "data": mir.fmt(a0), "len": mir.fmt(a1)})
+            ck.ob("S-no-length-branch", fn["path"], not has_switch(body), "%s branches while building a slice view (length-dependent behaviour)" % fn["path"])
     ck.floor("slice view constructors", n_ctor, 3)
     ck.floor("from_raw_parts conversions in slice.rs", n_back, 9)
     ck.floor("utf-8 conversion sites", n_utf, 6)
